@@ -6,6 +6,7 @@ import (
 	"go/constant"
 	"go/token"
 	"go/types"
+	"regexp"
 	"sort"
 	"strings"
 
@@ -883,42 +884,157 @@ func (e *omegaEnv) ruleRangeArith(rule string) {
 
 // ruleRangeCheckShape: isReadable / isWriteable are siblings with the GP
 // range test and differ only in the access predicate.
+var pageAccessCallRe = regexp.MustCompile(`^(\(\*?[\w.]+\)\.)?GetPageAccess\(`)
+
 func (e *omegaEnv) ruleRangeCheckShape(rule string) {
 	c := e.c
-	want := []string{
-		"(0 == p1)",
-		"((4294967296 - p1) < p0)",
-		"(4294967296 < p1)",
-		"(cyc <= u32((((p0 + p1) - 1) / 4096)))",
-	}
-	_ = want
+	const ZP, RAM = int64(4096), int64(1) << 32
 	for _, n := range []string{"isReadable", "isWriteable"} {
 		f := c.Fn("PVM", n)
 		if f == nil {
 			continue
 		}
-		got := condShapes(f)
-		// the access predicate
-		var pred string
-		var rest []string
-		for _, s := range got {
-			if strings.Contains(s, "GetPageAccess") {
-				pred = s
-			} else {
-				rest = append(rest, s)
+		// the page-access query and the loop that walks the pages
+		var acc *ssa.Call
+		allInstrs(f, func(in ssa.Instruction) {
+			if call, ok := in.(*ssa.Call); ok && call.Call.StaticCallee() != nil && call.Call.StaticCallee().Name() == "GetPageAccess" {
+				acc = call
+			}
+		})
+		if acc == nil {
+			c.Bad(rule, "PVM."+n+" · range test", f.Pos(), "no page-access query")
+			continue
+		}
+		// (1) the range guard: a page is consulted exactly when 0 < len <= 2^32 and start <= 2^32 − len; len = 0 gives true, a rejected range false
+		bad := ""
+		vals := []int64{0, 1, ZP - 1, ZP, ZP + 1, RAM - ZP, RAM - 1, RAM, RAM + 1, int64(^uint64(0) >> 1), -1 /* 2^64−1 */}
+		for _, start := range vals {
+			for _, ln := range vals {
+				if bad != "" {
+					break
+				}
+				us, ul := uint64(start), uint64(ln)
+				rejected := ul > uint64(RAM) || us > uint64(RAM)-ul
+				av := func(s string) (int64, bool) {
+					switch s {
+					case "p0":
+						return start, true
+					case "p1":
+						return ln, true
+					}
+					return 0, false
+				}
+				consulted, _ := reachFromEntry(acc, shapeOpts, av)
+				want := ul != 0 && !rejected
+				if consulted != want {
+					bad = fmt.Sprintf("start=%d len=%d: pages are consulted=%v; the GP range test (len ≤ 2^32 ∧ start ≤ 2^32 − len, len ≠ 0) gives %v", us, ul, consulted, want)
+					break
+				}
+				if !want {
+					// the constant result on this input
+					r, ok := runWithAtoms(f, shapeOpts, av, nil)
+					if !ok || len(r.Results) != 1 {
+						bad = fmt.Sprintf("start=%d len=%d: the result is not decided by the range test alone", us, ul)
+						break
+					}
+					k, isC := r.Results[0].(*ssa.Const)
+					if !isC || k.Value == nil || (k.Value.String() == "true") != (ul == 0) {
+						bad = fmt.Sprintf("start=%d len=%d: result %s; an empty range is accessible and an invalid range is not", us, ul, exprStr(r.Results[0], shapeOpts))
+					}
+				}
 			}
 		}
-		wantRest := []string{"(0 == p1)", "((4294967296 - p1) < p0)", "(4294967296 < p1)", "(phi((1 + cyc) | u32((p0 / 4096))) <= u32((((p0 + p1) - 1) / 4096)))"}
-		sort.Strings(wantRest)
-		ok := strings.Join(rest, " ; ") == strings.Join(wantRest, " ; ")
-		c.Check(ok, rule, "PVM."+n+" · range test", f.Pos(), "offset==0 → true; offset > 2^32 or start > 2^32-offset → false; pages ⌊start/ZP⌋..⌊(start+offset-1)/ZP⌋",
-			"range test is ["+strings.Join(rest, " ; ")+"], expected ["+strings.Join(wantRest, " ; ")+"]")
-		wantPred := "((*PVM.Memory).GetPageAccess(cell(p2), phi((1 + cyc) | u32((p0 / 4096)))) == 0)"
-		if n == "isWriteable" {
-			wantPred = "((*PVM.Memory).GetPageAccess(cell(p2), phi((1 + cyc) | u32((p0 / 4096)))) != 2)"
+		c.Check(bad == "", rule, "PVM."+n+" · range test", f.Pos(), "len = 0 → true; len > 2^32 or start > 2^32 − len → false; otherwise pages are consulted (121 boundary valuations)", bad)
+		// (2) the pages walked: from ⌊start/ZP⌋ up to and including ⌊(start+len−1)/ZP⌋
+		h, in := natLoop(acc.Block())
+		bad = ""
+		if h == nil {
+			bad = "the page query is not inside a loop over the pages of the range"
+		} else {
+			var pphi *ssa.Phi
+			for _, ins := range h.Instrs {
+				if ph, ok := ins.(*ssa.Phi); ok && stripConv(acc.Call.Args[len(acc.Call.Args)-1]) == ssa.Value(ph) {
+					pphi = ph
+				}
+			}
+			var first, last ssa.Value
+			inclusive := false
+			if pphi != nil {
+				for k, e := range pphi.Edges {
+					if !in[h.Preds[k]] {
+						first = e
+					}
+				}
+				if ifi, ok := h.Instrs[len(h.Instrs)-1].(*ssa.If); ok {
+					if bo, ok := ifi.Cond.(*ssa.BinOp); ok {
+						switch {
+						case stripConv(bo.X) == ssa.Value(pphi) && bo.Op == token.LEQ:
+							last, inclusive = bo.Y, true
+						case stripConv(bo.Y) == ssa.Value(pphi) && bo.Op == token.GEQ:
+							last, inclusive = bo.X, true
+						case stripConv(bo.X) == ssa.Value(pphi) && bo.Op == token.LSS:
+							last = bo.Y
+						}
+					}
+				}
+			}
+			if first == nil || last == nil {
+				bad = "the loop over the pages of the range was not recognised (page counter, first page, last page)"
+			} else {
+				for _, st := range []int64{0, 1, ZP - 1, ZP, 5*ZP + 7, RAM - ZP - 1} {
+					for _, ln := range []int64{1, 2, ZP, ZP + 1, 3 * ZP} {
+						if uint64(st) > uint64(RAM)-uint64(ln) {
+							continue
+						}
+						env := intEnv{params: map[ssa.Value]int64{f.Params[0]: st, f.Params[1]: ln}, lens: map[ssa.Value]int64{}, unknown: map[ssa.Value]bool{}, cells: map[ssa.Value]int64{}}
+						a, ok1 := evalInt(first, env, 0)
+						b, ok2 := evalInt(last, env, 0)
+						wantLast := (st + ln - 1) / ZP
+						if !inclusive {
+							wantLast++
+						}
+						if !ok1 || !ok2 || a != st/ZP || b != wantLast {
+							bad = fmt.Sprintf("start=%d len=%d: pages %d..%d (evaluable=%v) are walked; the range covers pages %d..%d", st, ln, a, b, ok1 && ok2, st/ZP, (st+ln-1)/ZP)
+						}
+					}
+				}
+			}
 		}
-		c.Check(pred == wantPred, rule, "PVM."+n+" · access predicate", f.Pos(), "page predicate "+pred, "page predicate is "+pred+", expected "+wantPred)
-		// returns: false on the failing edges, true otherwise (constants only)
+		c.Check(bad == "", rule, "PVM."+n+" · pages", f.Pos(), "walks pages ⌊start/ZP⌋ .. ⌊(start+len−1)/ZP⌋", bad)
+		// (3) the page predicate: a page rejects the range iff it is inaccessible (read) / not read-write (write)
+		bad = ""
+		var falseRet *ssa.Return
+		allInstrs(f, func(ins ssa.Instruction) {
+			if r, ok := ins.(*ssa.Return); ok && len(r.Results) == 1 {
+				if k, isC := r.Results[0].(*ssa.Const); isC && k.Value != nil && k.Value.String() == "false" {
+					if h != nil && in[r.Block().Preds[0]] || h != nil && in[r.Block()] {
+						falseRet = r
+					}
+				}
+			}
+		})
+		if falseRet == nil {
+			bad = "no rejection inside the page loop"
+		} else {
+			for _, a := range []int64{0, 1, 2} {
+				reached, ok := iterReaches(falseRet, shapeOpts, nil, func(s string) (int64, bool) {
+					if pageAccessCallRe.MatchString(s) {
+						return a, true
+					}
+					return 0, false
+				})
+				want := a == 0
+				if n == "isWriteable" {
+					want = a != 2
+				}
+				if !ok || reached != want {
+					bad = fmt.Sprintf("a page with access %d rejects the range=%v (decidable=%v); expected %v", a, reached, ok, want)
+					break
+				}
+			}
+		}
+		c.Check(bad == "", rule, "PVM."+n+" · access predicate", f.Pos(), "a page rejects the range exactly when it is "+map[string]string{"isReadable": "inaccessible", "isWriteable": "not read-write"}[n]+" (3/3 rows)", bad)
+		// returns: constants only
 		rs := returnShapes(f)["ret"]
 		c.Check(strings.Join(rs, ",") == "false,true", rule, "PVM."+n+" · results", f.Pos(), "returns only constants true/false", "unexpected return shapes "+strings.Join(rs, ","))
 	}
